@@ -157,6 +157,9 @@ type Enc struct {
 	axiomLines      []axiomLine
 	bseqSeen        map[string]bool
 	writeRef        string          // reference through which the heap write in progress goes ("" = unknown)
+	writeTarget     string          // the object actually written when it differs from writeRef (append: old backing or a new one)
+	freshCtx        []string        // names of the enclosing loops that carry `fresh_writes` (innermost last)
+	implCache       map[string][]types.Type
 	dryNonLocal     map[string]bool // result of the last loop dry run
 	writeNonLocal   map[string]bool // heap keys written through a reference that was not allocated by this function
 	qscope          [][2]string // quantified variables of the specification expression being evaluated: (symbol, sort)
@@ -347,12 +350,25 @@ func (e *Enc) havocUnknown(st *State) {
 func localRef(t string) bool { return strings.HasPrefix(t, "|ref!") }
 
 // noteWrite records whether the write in progress may touch an object that existed before the function started.
-func (e *Enc) noteWrite(key string) {
+func (e *Enc) noteWrite(st *State, key string) {
 	if !localRef(e.writeRef) {
 		if e.writeNonLocal == nil {
 			e.writeNonLocal = map[string]bool{}
 		}
 		e.writeNonLocal[key] = true
+		// inside a loop declared `fresh_writes`: the written object must have been allocated during the call
+		if n := len(e.freshCtx); n > 0 && e.dry == 0 && refIndexedKey(key) && st != nil {
+			target := e.writeTarget
+			if target == "" {
+				target = e.writeRef
+			}
+			goal := "false" // a write through an unknown reference cannot be shown fresh
+			if target != "" {
+				goal = "(> " + target + " alloc@0)"
+			}
+			e.addObl(&Obligation{Name: e.freshCtx[n-1] + ".fresh_write:" + key, Kind: "fresh-write", Label: "",
+				Clause: "fresh_writes — the loop body writes " + key + " only in objects allocated during the call", Reach: st.reach, Goal: goal})
+		}
 	}
 }
 
@@ -367,7 +383,7 @@ func (e *Enc) withRef(ref string, f func()) {
 func (e *Enc) heapSet(st *State, key, sort, term string) {
 	e.heapSort[key] = sort
 	e.writeLog[key] = true
-	e.noteWrite(key)
+	e.noteWrite(st, key)
 	if len(term) > 60 {
 		n := e.fresh(key, sort)
 		e.assert(eq(n, term))
@@ -382,7 +398,7 @@ func (e *Enc) heapHavoc(st *State, key string) {
 		return
 	}
 	e.writeLog[key] = true
-	e.noteWrite(key)
+	e.noteWrite(st, key)
 	st.heap[key] = e.fresh(key, sort)
 }
 
@@ -479,6 +495,14 @@ func (e *Enc) typeAssume(st *State, lf Leaf, t string) {
 
 func (e *Enc) storeLoc(st *State, l *Loc, v *Val) {
 	leaves := e.TI.shape(l.T)
+	if len(leaves) == 1 && len(v.L) == 0 && v.Clos != nil && len(v.Clos.Bind) == 0 && len(v.Clos.Fn.FreeVars) == 0 {
+		// a function value without captured variables (a package-level function or method expression) is a constant:
+		// it is stored as a non-nil reference that stands for that function. Reading it back gives a plain function value
+		// (a call through it is a call of an unknown function value).
+		c := e.declConst(sym("funcref!"+v.Clos.Fn.String()), "Int")
+		e.assert("(not (= " + c + " 0))")
+		v = &Val{T: v.T, L: []Sc{{c, "Int"}}}
+	}
 	if len(leaves) != len(v.L) {
 		if v.Loc != nil || v.Clos != nil {
 			e.unsupportedf("store of an interior pointer or closure into memory (%s)", typeStr(l.T))
@@ -1141,7 +1165,22 @@ func (e *Enc) encodeBlocks(fr *Frame, order []*ssa.BasicBlock, entry *State, wit
 				continue
 			}
 		}
+		// blocks of a loop declared `fresh_writes`: heap writes are checked to go to objects allocated during the call
+		pushed := 0
+		if c := e.contractOfFn(fr.fn); c != nil {
+			for _, l := range fr.loops {
+				if sp := c.Loops[l.ordinal]; sp != nil && sp.FreshWrites && l.body[b.Index] {
+					name := fmt.Sprintf("loop%d", l.ordinal)
+					if fr.parent != nil {
+						name = shortFn(fr.fn) + "/" + name
+					}
+					e.freshCtx = append(e.freshCtx, name)
+					pushed++
+				}
+			}
+		}
 		e.encodeInstrs(fr, b, st)
+		e.freshCtx = e.freshCtx[:len(e.freshCtx)-pushed]
 	}
 }
 
